@@ -314,9 +314,12 @@ def check_number(run, case):
             text[:60], type(out[1]).__name__, out[1]), exc=out[1],
             input_class='float' if isfloat else 'int')
     elif type(out[1]) is not type(exp) or out[1] != exp or out[2] != exp or \
-            repr(out[1]) != repr(exp):
+            (isfloat and repr(out[1]) != repr(exp)):
+        # (an integer beyond the int/str conversion limit cannot be printed)
+        shown = '<int of %d bits>' % out[1].bit_length() if type(
+            out[1]) is int and out[1].bit_length() > 12000 else repr(out[1])
         run.violate('number-denotes-other-value', case,
-                    '%s -> %r, python %r' % (text[:60], out[1], exp),
+                    '%s -> %s, python %r' % (text[:60], shown, exp),
                     input_class='float' if isfloat else 'int')
 
 
